@@ -44,6 +44,8 @@ func c04Ops(wide bool) []c04Op {
 		ops = append(ops, c04Op{"for(" + n + ")", "for", n, ""})
 	}
 	ops = append(ops, c04Op{"assign(loop,int)", "assign", "loop", VInt})
+	// loops with absent clauses (the body ends with @break, so there is exactly one pass)
+	ops = append(ops, c04Op{"for(;;)", "forbare", "", ""}, c04Op{"for(;x!=nil;)", "forcond", "x", ""})
 	return ops
 }
 
@@ -96,6 +98,7 @@ func c04Build(cs c04Case, maxDepth int) (tree []*Node, ok bool) {
 		node    *Node
 		inElse  bool
 		isIf    bool
+		bare    bool
 		collect *[]*Node
 	}
 	root := []*Node{}
@@ -113,6 +116,9 @@ func c04Build(cs c04Case, maxDepth int) (tree []*Node, ok bool) {
 		case "close":
 			if len(stack) == 1 {
 				return nil, false
+			}
+			if stack[len(stack)-1].bare {
+				emit(&Node{K: "break"})
 			}
 			stack = stack[:len(stack)-1]
 			emit(nText(")"))
@@ -144,6 +150,18 @@ func c04Build(cs c04Case, maxDepth int) (tree []*Node, ok bool) {
 			emit(n)
 			stack = append(stack, frame{node: n, collect: &n.Body})
 			emit(nText("L:"))
+		case "forbare", "forcond":
+			if len(stack) > maxDepth {
+				return nil, false
+			}
+			n := &Node{K: "for"}
+			if op.kind == "forcond" {
+				n.Cond = eBin("==", eLit(vInt(1)), eLit(vInt(1)))
+			}
+			emit(nText("("))
+			emit(n)
+			stack = append(stack, frame{node: n, collect: &n.Body, bare: true})
+			emit(nText("B:"))
 		case "for":
 			if len(stack) > maxDepth {
 				return nil, false
@@ -158,6 +176,9 @@ func c04Build(cs c04Case, maxDepth int) (tree []*Node, ok bool) {
 	}
 	// open blocks are closed at the end; then both names are read once more from the template scope
 	for len(stack) > 1 {
+		if stack[len(stack)-1].bare {
+			emit(&Node{K: "break"})
+		}
 		stack = stack[:len(stack)-1]
 		emit(nText(")"))
 	}
@@ -230,7 +251,7 @@ func c04Run(c *Ctx) {
 						reads++
 					case "assign":
 						assigns++
-					case "if", "iffalse", "each", "for":
+					case "if", "iffalse", "each", "for", "forbare", "forcond":
 						blocks++
 					}
 				}
